@@ -29,14 +29,62 @@ type Ctx struct {
 	constComps  map[string]bool // components that never change (constglobal)
 	lazy        []lazyAxiom
 	nbase       int
+	freshAllocs []freshAlloc        // objects allocated by the invocation, with the body position of the allocation
+	ptrComps    map[string]string   // heap components holding references: name -> "field" | "map:<keysort>"
 	prog     *Program
 }
 
 type lazyAxiom struct{ trigger, text string }
 
+type freshAlloc struct {
+	name string
+	mark int
+}
+
+// freshnessAxioms: the heap at entry holds no reference to an object that is
+// allocated later by this invocation.
+func (c *Ctx) freshnessAxioms(mark int, text string) []string {
+	var allocs []string
+	for _, a := range c.freshAllocs {
+		if a.mark <= mark {
+			allocs = append(allocs, a.name)
+		}
+	}
+	if len(allocs) == 0 {
+		return nil
+	}
+	var names []string
+	for n := range c.ptrComps {
+		names = append(names, n)
+	}
+	sort.Strings(names)
+	var out []string
+	for _, n := range names {
+		en := c.entryName(n)
+		if !strings.Contains(text, en) {
+			continue
+		}
+		kind := c.ptrComps[n]
+		var cs []string
+		if kind == "field" {
+			for _, a := range allocs {
+				cs = append(cs, fmt.Sprintf("(not (= (select %s x) %s))", en, a))
+			}
+			out = append(out, fmt.Sprintf("(assert (forall ((x Int)) (! %s :pattern ((select %s x)))))", and(cs...), en))
+		} else {
+			ks := strings.TrimPrefix(kind, "map:")
+			for _, a := range allocs {
+				cs = append(cs, fmt.Sprintf("(not (= (select (select %s m) k) %s))", en, a))
+			}
+			out = append(out, fmt.Sprintf("(assert (forall ((m Int) (k %s)) (! %s :pattern ((select (select %s m) k)))))", ks, and(cs...), en))
+		}
+	}
+	return out
+}
+
 func NewCtx(p *Program) *Ctx {
 	c := &Ctx{declSet: map[string]bool{}, sortMemo: map[string]string{}, compSort: map[string]string{},
-		typeTags: map[string]int{}, strLits: map[string]string{}, assumptions: map[string]bool{}, implIfaces: map[string]types.Type{}, constComps: map[string]bool{}, prog: p}
+		typeTags: map[string]int{}, strLits: map[string]string{}, assumptions: map[string]bool{}, implIfaces: map[string]types.Type{}, constComps: map[string]bool{}, ptrComps: map[string]string{}, prog: p}
 	c.decls = append(c.decls,
 		"(declare-sort GStr 0)",
 		"(declare-fun gs.len (GStr) (_ BitVec 64))",
@@ -388,6 +436,7 @@ func (c *Ctx) Unbox(t types.Type, v string) string {
 type State struct {
 	m     map[string]string
 	epoch int // > 0 after a havoc-all: components first used later resolve to that epoch's constant
+	ghostWild []string // ghost prefixes havoc'd by a wildcard modifies ("$n.*"): later-declared ones are havoc'd on first use
 }
 
 func NewState() *State { return &State{m: map[string]string{}} }
@@ -398,6 +447,7 @@ func (s *State) Clone() *State {
 		n.m[k] = v
 	}
 	n.epoch = s.epoch
+	n.ghostWild = append([]string{}, s.ghostWild...)
 	return n
 }
 
@@ -412,6 +462,10 @@ func (c *Ctx) DeclComp(comp, srt string) {
 	}
 	c.compSort[comp] = srt
 	c.Decl("comp "+comp, fmt.Sprintf("(declare-const %s %s)", c.entryName(comp), srt))
+	if strings.HasPrefix(comp, "$c.") {
+		// per-invocation call counters start at zero
+		c.Decl("zero "+comp, fmt.Sprintf("(assert (= %s 0))", c.entryName(comp)))
+	}
 }
 
 func (c *Ctx) Get(s *State, comp string) string {
@@ -420,6 +474,12 @@ func (c *Ctx) Get(s *State, comp string) string {
 	}
 	if _, ok := c.compSort[comp]; !ok {
 		panic("undeclared component " + comp)
+	}
+	for _, w := range s.ghostWild {
+		if strings.HasPrefix(comp, w) {
+			c.Havoc(s, comp)
+			return s.m[comp]
+		}
 	}
 	if s.epoch > 0 && !strings.HasPrefix(comp, "$") && !strings.HasPrefix(comp, "L.") && !c.constComps[comp] {
 		n := q(fmt.Sprintf("%s@ep%d", comp, s.epoch))
@@ -485,6 +545,19 @@ func (c *Ctx) Merge(conds []string, states []*State) *State {
 			t = fmt.Sprintf("(ite %s %s %s)", conds[i], c.Get(states[i], k), t)
 		}
 		out.m[k] = c.Define(k+"@j", c.compSort[k], t)
+	}
+	for _, st := range states {
+		for _, w := range st.ghostWild {
+			dup := false
+			for _, x := range out.ghostWild {
+				if x == w {
+					dup = true
+				}
+			}
+			if !dup {
+				out.ghostWild = append(out.ghostWild, w)
+			}
+		}
 	}
 	out.epoch = ep
 	if ep == -1 {
